@@ -23,6 +23,8 @@ EXTRA = [
     Skeleton("b14_decorated_multiline_headers", {"main.py": "import functools\ndef deco({0}):\n    return {0}\n@deco\n@functools.wraps(\n    deco\n)\ndef fun({1},\n        {2}=(1,\n             2)):\n    return {1}, {2}\n@deco\nclass kk(\n        object):\n    def mm(self, {3}): return {3}\n    def nn(self,\n           {1}): return {1}\n    {2} = 1\nprint(fun(1), kk().mm(2), kk().nn(3), kk.{2})\n"}),
     # a comprehension in a class body: its first iterable is evaluated in the class scope, the rest is not
     Skeleton("b15_comprehension_in_class", {"main.py": "{0} = [3]\nclass kk:\n    {1} = [1, 2]\n    {2} = [{3} for {3} in {1}]\n    def mm(self, {3}):\n        return {3}, {0}\nprint(kk.{2}, kk().mm(1))\n"}),
+    # a one-line def / class whose only body statement runs over several physical lines, followed by more code
+    Skeleton("b16_oneliner_with_multiline_body", {"main.py": "def fun({0}): return [\n    {0},\n    1,\n]\n{1} = 2\ndef other({2}):\n    {3} = {2}\n    return {3}\nclass kk: {1} = (\n    3)\n{3} = 4\nprint(fun(1), other(2), kk.{1}, {1}, {3})\n"}),
 ]
 
 K15 = [sk for sk in K01 if len(sk.files) == 1] + EXTRA
